@@ -115,6 +115,9 @@ func (aquahash *Aquahash) mine(version params.HeaderVersion, block *types.Block,
 		dataset *ethashdag.Dataset
 	)
 	header.Version = version
+	// the seal-free hash depends on the version (argon2id-B hashes it differently):
+	// compute it for the version the result is stamped and verified with
+	hash = header.HashNoNonce().Bytes()
 	if header.Version == 0 || header.Version > crypto.KnownVersion {
 		common.Report("Mining incorrect version")
 		return
